@@ -487,6 +487,18 @@ class Facts:
                     out.add(f"{rc}.{m}")
         return out
 
+    def reachable_direct(self, roots: Iterable[str]) -> set[str]:
+        """Reachable through resolved calls only - not through lark's dispatch to transformer callbacks."""
+        seen: set[str] = set()
+        todo = list(roots)
+        while todo:
+            q = todo.pop()
+            if q in seen:
+                continue
+            seen.add(q)
+            todo += [c.target for c in self.calls.get(q, []) if c.target and c.target not in seen]
+        return seen
+
     def reachable(self, roots: Iterable[str]) -> set[str]:
         seen: set[str] = set()
         todo = list(roots)
